@@ -33,6 +33,27 @@
 ; eviction queue (ghost bag of entries handed to the remover)
 (declare-fun qadd (GSeq Int) GSeq)
 
+; nncount(A, o, n): number of non-zero entries among A[o], ..., A[o+n-1]
+(declare-fun nncount ((Array Int Int) Int Int) Int)
+; @axiom nncount-zero
+; @needs nncount
+(assert (forall ((A (Array Int Int)) (o Int)) (! (= (nncount A o 0) 0) :pattern ((nncount A o 0)))))
+; @axiom nncount-step
+; @needs nncount
+(assert (forall ((A (Array Int Int)) (o Int) (a Int) (b Int)) (! (=> (and (>= a 0) (= b (+ a 1))) (= (nncount A o b) (+ (nncount A o a) (ite (= (select A (+ o a)) 0) 0 1)))) :pattern ((nncount A o a) (nncount A o b)))))
+; @axiom nncount-strict
+; @needs nncount
+(assert (forall ((A (Array Int Int)) (o Int) (a Int) (b Int)) (! (=> (and (<= 0 a) (< a b) (not (= (select A (+ o a)) 0))) (< (nncount A o a) (nncount A o b))) :pattern ((nncount A o a) (nncount A o b)))))
+; @axiom nncount-store-beyond
+; @needs nncount
+(assert (forall ((A (Array Int Int)) (o Int) (n Int) (k Int) (v Int)) (! (=> (>= k (+ o n)) (= (nncount (store A k v) o n) (nncount A o n))) :pattern ((nncount (store A k v) o n)))))
+; @axiom nncount-range
+; @needs nncount
+(assert (forall ((A (Array Int Int)) (o Int) (n Int)) (! (=> (>= n 0) (and (<= 0 (nncount A o n)) (<= (nncount A o n) n))) :pattern ((nncount A o n)))))
+; @axiom nncount-mono
+; @needs nncount
+(assert (forall ((A (Array Int Int)) (o Int) (a Int) (b Int)) (! (=> (and (<= 0 a) (<= a b)) (<= (nncount A o a) (nncount A o b))) :pattern ((nncount A o a) (nncount A o b)))))
+
 ; boxing of strings into interface payloads, and interface-typed map keys
 (declare-fun box.str (GStr) Int)
 (declare-fun unbox.str (Int) GStr)
